@@ -465,4 +465,56 @@ theorem bpkiEdata_roundtrip (edata salt e : List UInt8) (iter : Nat) (hsalt : sa
   rw [this]; simp [runDec]
 
 
+/-! ### length of the PrivateKeyInfo / share codes -/
+
+theorem pkiCode_len_le (alg curve k : List UInt8) (hs : (oidCode alg).length + (oidCode curve).length + k.length < 4294967296) :
+    (pkiCode alg curve k).length ≤ 42 + (oidCode alg).length + (oidCode curve).length + k.length := by
+  rw [← pkiTree_code]
+  have hb : Tree.boundL [pkiTree alg curve k] ≤ 42 + (oidCode alg).length + (oidCode curve).length + k.length := by
+    have := tlvCode_le 4 k (by decide) (by omegaW)
+    simp only [pkiTree, Tree.boundL, Tree.bound, List.length_nil, sizeCode20_len]
+    omega
+  have := Tree.codeL_le [pkiTree alg curve k] (pkiTree_ok alg curve k) (by omegaW)
+  omega
+
+/-- the PrivateKeyInfo code is at most 100 octets longer than the key -/
+theorem bpkiPrivkeyEnc_len (k pki : List UInt8) (hk : k.length = 24 ∨ k.length = 32 ∨ k.length = 48 ∨ k.length = 64)
+    (he : bpkiPrivkeyEnc k = .ok pki) : pki.length ≤ k.length + 100 := by
+  unfold bpkiPrivkeyEnc at he
+  rcases hk with h | h | h | h
+  · rw [if_pos h, pki_enc _ _ k ok_pubkey ok_c192 (by rw [len_pubkey, len_c192]; omega)] at he
+    cases he
+    have := pkiCode_len_le oid_bign_pubkey oid_bign_curve192v1 k (by rw [len_pubkey, len_c192]; omega)
+    rw [len_pubkey, len_c192] at this; omega
+  · rw [if_neg (by omega), if_pos h, pki_enc _ _ k ok_pubkey ok_c256 (by rw [len_pubkey, len_c256]; omega)] at he
+    cases he
+    have := pkiCode_len_le oid_bign_pubkey oid_bign_curve256v1 k (by rw [len_pubkey, len_c256]; omega)
+    rw [len_pubkey, len_c256] at this; omega
+  · rw [if_neg (by omega), if_neg (by omega), if_pos h, pki_enc _ _ k ok_pubkey ok_c384 (by rw [len_pubkey, len_c384]; omega)] at he
+    cases he
+    have := pkiCode_len_le oid_bign_pubkey oid_bign_curve384v1 k (by rw [len_pubkey, len_c384]; omega)
+    rw [len_pubkey, len_c384] at this; omega
+  · rw [if_neg (by omega), if_neg (by omega), if_neg (by omega), pki_enc _ _ k ok_pubkey ok_c512 (by rw [len_pubkey, len_c512]; omega)] at he
+    cases he
+    have := pkiCode_len_le oid_bign_pubkey oid_bign_curve512v1 k (by rw [len_pubkey, len_c512]; omega)
+    rw [len_pubkey, len_c512] at this; omega
+
+/-- the share container code is at most 100 octets longer than the share -/
+theorem bpkiShareEnc_len (k pki : List UInt8) (hk : k.length = 17 ∨ k.length = 25 ∨ k.length = 33)
+    (he : bpkiShareEnc k = .ok pki) : pki.length ≤ k.length + 100 := by
+  unfold bpkiShareEnc at he
+  rcases hk with h | h | h
+  · rw [if_pos h, pki_enc _ _ k ok_share ok_m128 (by rw [len_share, len_m128]; omega)] at he
+    cases he
+    have := pkiCode_len_le oid_bels_share oid_bels_m0128v1 k (by rw [len_share, len_m128]; omega)
+    rw [len_share, len_m128] at this; omega
+  · rw [if_neg (by omega), if_pos h, pki_enc _ _ k ok_share ok_m192 (by rw [len_share, len_m192]; omega)] at he
+    cases he
+    have := pkiCode_len_le oid_bels_share oid_bels_m0192v1 k (by rw [len_share, len_m192]; omega)
+    rw [len_share, len_m192] at this; omega
+  · rw [if_neg (by omega), if_neg (by omega), pki_enc _ _ k ok_share ok_m256 (by rw [len_share, len_m256]; omega)] at he
+    cases he
+    have := pkiCode_len_le oid_bels_share oid_bels_m0256v1 k (by rw [len_share, len_m256]; omega)
+    rw [len_share, len_m256] at this; omega
+
 end Bee2V.C08
